@@ -552,8 +552,62 @@ impl Space for Grid {
     }
 }
 
+/// workbooks whose cells got to their place through structural API calls (move / copy / insert / remove)
+/// instead of direct setters: the set of non-blank cells before save must still equal the set after reload
+struct Built {
+    values: Vec<V>,
+}
+const BUILD_OPS: [&str; 8] = ["move-into-fresh-rows", "copy-into-fresh-rows", "move-right", "insert-row-before", "insert-column-before", "remove-row-before", "remove-column-before", "move-then-set-below"];
+impl Space for Built {
+    fn len(&self) -> u64 {
+        (self.values.len() * BUILD_OPS.len()) as u64
+    }
+    fn describe(&self, i: u64) -> Value {
+        let n = BUILD_OPS.len() as u64;
+        json!({"kind":"built-by-structural-ops","value": self.values[(i / n) as usize].json(), "build": BUILD_OPS[(i % n) as usize], "light": i % 2 == 1})
+    }
+    fn tags(&self, i: u64) -> Vec<String> {
+        let n = BUILD_OPS.len() as u64;
+        let mut t = self.values[(i / n) as usize].tags();
+        t.push(format!("build:{}", BUILD_OPS[(i % n) as usize]));
+        t
+    }
+    fn run(&self, i: u64, sink: &mut Sink) {
+        let n = BUILD_OPS.len() as u64;
+        let v = &self.values[(i / n) as usize];
+        let mut book = new_file();
+        {
+            let ws = book.get_sheet_mut(&0).unwrap();
+            v.apply(ws.get_cell_mut("B2"));
+            ws.get_cell_mut("C2").set_value_number(7);
+            ws.get_cell_mut("B3").set_value_string("below");
+            match BUILD_OPS[(i % n) as usize] {
+                "move-into-fresh-rows" => {
+                    ws.move_range("B2:C3", &10, &1);
+                }
+                "copy-into-fresh-rows" => {
+                    ws.copy_range("B2:C3", &20, &0);
+                }
+                "move-right" => {
+                    ws.move_range("B2:C2", &0, &5);
+                }
+                "insert-row-before" => ws.insert_new_row(&2, &3),
+                "insert-column-before" => ws.insert_new_column_by_index(&1, &2),
+                "remove-row-before" => ws.remove_row(&1, &1),
+                "remove-column-before" => ws.remove_column_by_index(&1, &1),
+                _ => {
+                    ws.move_range("B2:C3", &10, &0);
+                    ws.get_cell_mut("A30").set_value_string("written after the move");
+                }
+            }
+        }
+        check_book(&book, i % 2 == 1, &self.tags(i), &self.describe(i), sink);
+    }
+}
+
 pub fn space(tier: Tier, id: &str) -> Option<Box<dyn Space>> {
     match id {
+        "built" => Some(Box::new(Built { values: core16() })),
         "singles" => Some(Box::new(Singles { values: single_values(tier) })),
         "pairs" => Some(Box::new(Pairs { values: core_values() })),
         "triples" => Some(Box::new(Triples { values: core16() })),
@@ -567,7 +621,7 @@ fn replay(tier: Tier, case: &Value) -> Vec<Violation> {
 }
 
 fn run(ctx: &Ctx) -> i32 {
-    let ids: Vec<&'static str> = if ctx.tier == Tier::Thorough { vec!["singles", "pairs", "triples", "grid"] } else { vec!["singles", "pairs", "grid"] };
+    let ids: Vec<&'static str> = if ctx.tier == Tier::Thorough { vec!["singles", "pairs", "triples", "grid", "built"] } else { vec!["singles", "pairs", "grid", "built"] };
     let spaces = ids.iter().map(|id| (*id, space(ctx.tier, id).unwrap())).collect();
     run_e1(
         ctx,
@@ -575,7 +629,7 @@ fn run(ctx: &Ctx) -> i32 {
             spaces,
             cfg: PoolCfg { chunk: 64, case_timeout: std::time::Duration::from_secs(60), ..Default::default() },
             level: "exploration",
-            rule: "every workbook of: (singles) each value of the value alphabet x 9 positions x both writers; (pairs) every ordered pair of the 70-value core in 3 layouts (same row, same column, two sheets); (triples, thorough) every ordered triple of a 16-value core; (grid) every m*10^e, m=1..999, e=-20..20, both signs. Oracle: content projection (cell set, value text, kind, raw variant, f64 bits, rich runs, formula text) before save == after reload. distinct_nontrivial = distinct reloaded content dumps".into(),
+            rule: "every workbook of: (singles) each value of the value alphabet x 9 positions x both writers; (pairs) every ordered pair of the 70-value core in 3 layouts (same row, same column, two sheets); (triples, thorough) every ordered triple of a 16-value core; (grid) every m*10^e, m=1..999, e=-20..20, both signs; (built) each value of the 16-value core in a workbook whose cells reached their place through 8 structural API calls (move/copy into fresh rows, insert/remove rows and columns). Oracle: content projection (cell set, value text, kind, raw variant, f64 bits, rich runs, formula text) before save == after reload. distinct_nontrivial = distinct reloaded content dumps".into(),
             alphabets: json!({"text_atoms": ATOMS.iter().map(|a| a.0).collect::<Vec<_>>(), "single_values": single_values(ctx.tier).len(), "positions": POSITIONS, "core_values": core_values().len(), "core16": core16().len(), "formulas": FORMULAS, "errors": ERRORS, "number_thresholds": number_thresholds().len()}),
             bounds: json!({"text_atoms_max": if ctx.tier == Tier::Thorough {3} else {2}, "cells_per_workbook": "1 (singles), 2 (pairs), 3 (triples), 999 (grid)"}),
             exhaustive: true,
